@@ -356,7 +356,7 @@ pub fn run(tier: Tier) -> i32 {
     rep.guard("every generated failing expression parses in the reference", model_err == 0);
     rep.guard("errors after multi-byte characters and after newlines both occur", st.outcomes.get("parse error after multi-byte characters").cloned().unwrap_or(0) > 100 && st.outcomes.get("parse error after a newline").cloned().unwrap_or(0) > 100);
     rep.guard("runtime errors of arity, type and unknown-function located", ["located InvalidArity", "located InvalidType", "located UnknownFunction", "located InvalidValue"].iter().all(|k| st.outcomes.get(*k).cloned().unwrap_or(0) > 0));
-    rep.rule = "(a) every character string up to the bound over the extended alphabet (newline, 2- and 4-byte characters, a non-ASCII digit) that fails to compile, plus multi-line prefixes x erroneous tails; (b) every failing cell of the builtin signature table up to the argument-count bound embedded in 13 contexts (after newlines / multi-byte text, nested in calls, projections, filters, exprefs of by-functions), by-functions that fail after a nested call; (c) step-0 slices. Oracle: class = R-fn prediction, expression = searched text, offset = byte offset of the failing call's '(' (R-eval tracks it) or inside the slice, line/column recomputed from the offset, Display re-rendered by the reference. non-trivial = an error was produced and every field checked".into();
+    rep.rule = "(a) every character string up to the bound over the extended alphabet (newline, 2- and 4-byte characters, a non-ASCII digit) that fails to compile, plus multi-line prefixes x erroneous tails; (b) every failing cell of the builtin signature table up to the argument-count bound embedded in 13 contexts (after newlines / multi-byte text, nested in calls, projections, filters, exprefs of by-functions), by-functions that fail after a nested call; (c) step-0 slices. Oracle: class = R-fn prediction, expression = searched text, offset = byte offset of the failing call's '(' (R-eval tracks it) or inside the slice, line/column recomputed from the offset, Display re-rendered by the reference. non-trivial = an error was produced and every field checked Calls are also written with white space / tabs / a newline between the name and '('; U+2028, U+2029, U+0085, VT, FF and CR occur inside string tokens in front of the error (only LF starts a line).".into();
     rep.bounds = json!({"char_len": k, "alphabet": SIGMA_EXT.iter().collect::<String>()});
     rep.stats = st;
     rep.finish()
